@@ -84,6 +84,10 @@ class C03(core.Property):
       yield {'pick_sweep': [256, 128, 8]}
     else:
       yield {'pick_sweep': [64, 40, 7]}
+    # datasets beyond internal window / block sizes (1024) with batch sizes that do not divide them
+    for N, bs in ([(1025, 5), (1030, 7), (2051, 100)] if tier == 'quick' else
+                  [(1025, 5), (1025, 3), (1030, 7), (1100, 20), (2051, 100), (2048, 1024), (3000, 1023), (4100, 4096)]):
+      yield {'N': N, 'bs': bs, 'B': rng.randrange(1, 5), 'drop': rng.random() < 0.5, 'feats': [], 'pre': []}
     n = 600 if tier == 'quick' else 3000
     for _ in range(n):
       bs = rng.choice([1, 2, 3, 4, 5, 7, 8, 9, 16, 17, 31, 32, 33])
@@ -175,6 +179,21 @@ class C03(core.Property):
     if any(not np.array_equal(raw[k], snap[k]) for k in snap) or set(raw) != set(snap):
       problems.append('raw examples mutated')
 
+    # ---- slices of a dataset whose length has already been taken (views call len() in __init__)
+    if N >= 2:
+      for a, b in ((0, N // 2), (1, N), (N // 3, N // 3 + 1)):
+        sub = ds[a:b]
+        want_rows = list(range(a + 1, b + 1))
+        if len(sub) != b - a:
+          problems.append(f'len(ds[{a}:{b}]) = {len(sub)} but the slice holds {b - a} examples')
+        got_rows = [int(i) for bb in sub.batch(batch_size=bs) for i in bb['id']]
+        if got_rows != want_rows:
+          problems.append(f'ds[{a}:{b}].batch({bs}) yields rows {got_rows[:20]} instead of {want_rows[:20]}')
+        pad_rows = [int(i) for bb in sub.padded_batch(batch_size=bs, num_batch_size_buckets=B)
+                    for i in bb['id'][:int(bb[cds.EXAMPLE_MASK_KEY].sum())]]
+        sizes_ok = all(len(bb['id']) == len(bb[cds.EXAMPLE_MASK_KEY]) for bb in sub.padded_batch(batch_size=bs, num_batch_size_buckets=B))
+        if pad_rows != want_rows or not sizes_ok:
+          problems.append(f'ds[{a}:{b}].padded_batch({bs}, {B}) is not the slice')
     # ---- independent oracle on the implementation
     ids = list(range(1, N + 1))
     got = [int(i) for b in plain for i in b['id']]
